@@ -314,30 +314,6 @@ theorem poly8_f64_bound (p : Poly8 F64) (x : F64) (hok : (p.p64Run ln exp x).ok)
   refine ⟨hf, hc, ?_⟩
   rw [hv]
   exact PP.Props.C01Bound.poly8_rounding_c01 M64 (le_refl _) (p.mapF F64.val) x.val
-/-- the cubic with the side condition spelled out (`Poly3.Ok64`, `PP/Sem/Pair64.lean`) -/
-theorem poly3_f64_bound_explicit (p : Poly3 F64) (x : F64) (hok : p.Ok64 x) :
-    |(p.f64Run ln exp x).val - (p._0.a0.val + p._0.a1.val * x.val + p._0.a2.val * x.val ^ 2 + p._0.a3.val * x.val ^ 3)|
-      ≤ 4 * (3 + 2) * (2 : ℚ) ^ (-53 : ℤ) *
-        (|p._0.a0.val| + |p._0.a1.val| * |x.val| + |p._0.a2.val| * |x.val| ^ 2 + |p._0.a3.val| * |x.val| ^ 3) :=
-  (poly3_f64_bound ln exp p x ((poly3_ok_iff ln exp p x).mpr hok)).2.2
-
-/-- the hypotheses of the headline theorems are satisfiable by a concrete instance:
-`5x³ + 3x² − 2x + 1` at `x = 3` (all partial results are integers below `2^53`) -/
-example : (⟨⟨F64.ofDec 1 0, F64.ofDec (-2) 0, F64.ofDec 3 0, F64.ofDec 5 0⟩⟩ : Poly3 F64).Ok64 (F64.ofDec 3 0) := by
-  have h1 := F64.val_ofDec_int 1 (by decide)
-  have h2 := F64.val_ofDec_int (-2) (by decide)
-  have h3 := F64.val_ofDec_int 3 (by decide)
-  have h5 := F64.val_ofDec_int 5 (by decide)
-  have r : ∀ (n : ℤ), n.natAbs ≤ 2 ^ 53 → ∀ t : ℚ, t = n → InRange t := fun n hn t ht => ht ▸ F64.inRange_int n hn
-  have f : ∀ (n : ℤ), n.natAbs ≤ 2 ^ 53 → ∀ t : ℚ, t = n → rnd64 t = t := fun n hn t ht => ht ▸ F64.rnd64_int n hn
-  refine ⟨⟨h3.1, h3.2.1⟩, ⟨h1.1, h1.2.1⟩, ⟨h2.1, h2.2.1⟩, ⟨h3.1, h3.2.1⟩, ⟨h5.1, h5.2.1⟩, ?_, ?_, ?_, ?_⟩
-  · rw [h3.2.2]; exact r 9 (by decide) _ (by norm_num)
-  · rw [h3.2.2, h2.2.2, h1.2.2]; exact r (-5) (by decide) _ (by norm_num)
-  · rw [h3.2.2, h5.2.2]; exact r 18 (by decide) _ (by norm_num)
-  · rw [h3.2.2, h5.2.2, h2.2.2, h1.2.2, f 18 (by decide) _ (by norm_num), f 9 (by decide) _ (by norm_num),
-      f (-5) (by decide) _ (by norm_num)]
-    exact r 157 (by decide) _ (by norm_num)
-
 end transfer
 
 end PP.Props.IEEE
